@@ -676,6 +676,19 @@ pub fn gen_input(rng: &mut Rng, tb: &Tables, cfg: &GenCfg, max_len: usize) -> (V
                 (text::mutate(rng, t.as_bytes()), if rng.bool() { Q::default_() } else { Q::from_index(rng.below(N_Q)) }, "mutated")
             }
         };
+        let mut bytes = bytes;
+        if rng.chance(1, 12) {
+            // what a transport or an editor may put in front of / behind the text
+            const LEADINS: &[&[u8]] = &[b"\xEF\xBB\xBF", b"\xFE\xFF", b"\xFF\xFE", b"\xEF\xBB", b"\0", b"\r\n", b"\x0C", b"\x0B", b"\xC2\xA0", b"\xE2\x80\xA8", b"\x1A", b"#!r6rs\n", b"\xEF\xBB\xBF\xEF\xBB\xBF"];
+            let l = *rng.pick(LEADINS);
+            if rng.chance(3, 4) {
+                let mut b = l.to_vec();
+                b.extend_from_slice(&bytes);
+                bytes = b;
+            } else {
+                bytes.extend_from_slice(l);
+            }
+        }
         if bytes.len() <= max_len {
             return (bytes, q, tag);
         }
